@@ -674,6 +674,9 @@ func (cs *ContractSet) ParseContractText(file string, pkgPath string, lines []st
 				lab := rest[1:j]
 				if strings.HasPrefix(lab, "C") && len(lab) == 3 && unicode.IsDigit(rune(lab[1])) {
 					c.Tags[lab] = true
+				} else if strings.HasPrefix(lab, "caller=") {
+					// a protocol precondition that only binds call sites inside the named function(s)
+					c.Tags["pkg:caller:"+strings.TrimPrefix(lab, "caller=")] = true
 				} else {
 					c.Label = lab
 				}
